@@ -1,0 +1,415 @@
+//! Verification seam H (compiled only with `--cfg prqlc_verif`).
+//!
+//! Drop-in `HashMap` / `HashSet` whose *iteration order* is owned by the harness: the entries are
+//! taken in the order of a fixed-key hasher (so even without an oracle nothing depends on the
+//! process's random hash seeds) and then permuted as a thread-local order oracle says. Every
+//! iteration is a choice point `(call site, number of entries)`.
+//!
+//! Point operations (get / insert / remove / entry / contains / len …) go to the inner std
+//! collection through `Deref`.
+
+use std::borrow::Borrow;
+use std::cell::RefCell;
+use std::collections::hash_map::{DefaultHasher, RandomState};
+use std::fmt;
+use std::hash::{BuildHasherDefault, Hash};
+use std::marker::PhantomData;
+use std::ops::{Deref, DerefMut, Index};
+use std::panic::Location;
+
+pub type Fixed = BuildHasherDefault<DefaultHasher>;
+
+type Oracle = Box<dyn FnMut(&'static Location<'static>, usize) -> usize>;
+
+thread_local! {
+    static ORACLE: RefCell<Option<Oracle>> = const { RefCell::new(None) };
+}
+
+/// Install (or remove) the order oracle of this thread. It is asked `(site, n)` for every iteration
+/// over `n >= 2` entries and answers with a permutation number in `0..perm_count(n)` (0 = baseline).
+pub fn set_order_oracle(o: Option<Oracle>) {
+    ORACLE.with(|c| *c.borrow_mut() = o);
+}
+
+/// Number of orders offered for `n` entries: all `n!` up to 4 entries, rotations and reversed
+/// rotations above.
+pub fn perm_count(n: usize) -> usize {
+    match n {
+        0 | 1 => 1,
+        2 => 2,
+        3 => 6,
+        4 => 24,
+        n => 2 * n,
+    }
+}
+
+fn apply<T>(mut v: Vec<T>, k: usize) -> Vec<T> {
+    let n = v.len();
+    if k == 0 || n < 2 {
+        return v;
+    }
+    if n <= 4 {
+        // k-th permutation in lexicographic order of positions
+        let mut pool: Vec<T> = v.drain(..).collect();
+        let mut out = Vec::with_capacity(n);
+        let mut k = k % perm_count(n);
+        let mut f = perm_count(n);
+        for i in (1..=n).rev() {
+            f /= i;
+            let idx = k / f;
+            k %= f;
+            out.push(pool.remove(idx));
+        }
+        out
+    } else {
+        let k = k % (2 * n);
+        if k >= n {
+            v.reverse();
+        }
+        v.rotate_left(k % n);
+        v
+    }
+}
+
+#[track_caller]
+fn ordered<T>(v: Vec<T>) -> Vec<T> {
+    if v.len() < 2 {
+        return v;
+    }
+    let loc = Location::caller();
+    let n = v.len();
+    let k = ORACLE.with(|c| c.borrow_mut().as_mut().map(|f| f(loc, n)).unwrap_or(0));
+    apply(v, k)
+}
+
+// ------------------------------------------------------------------ HashMap
+
+pub struct HashMap<K, V, S = RandomState> {
+    inner: std::collections::HashMap<K, V, Fixed>,
+    _s: PhantomData<S>,
+}
+
+impl<K, V> HashMap<K, V, RandomState> {
+    pub fn new() -> Self {
+        HashMap { inner: Default::default(), _s: PhantomData }
+    }
+    pub fn with_capacity(n: usize) -> Self {
+        HashMap { inner: std::collections::HashMap::with_capacity_and_hasher(n, Fixed::default()), _s: PhantomData }
+    }
+}
+
+impl<K, V, S> HashMap<K, V, S> {
+    pub fn len(&self) -> usize {
+        self.inner.len()
+    }
+    pub fn is_empty(&self) -> bool {
+        self.inner.is_empty()
+    }
+    #[track_caller]
+    pub fn iter(&self) -> std::vec::IntoIter<(&K, &V)> {
+        ordered(self.inner.iter().collect()).into_iter()
+    }
+    #[track_caller]
+    pub fn iter_mut(&mut self) -> std::vec::IntoIter<(&K, &mut V)> {
+        ordered(self.inner.iter_mut().collect()).into_iter()
+    }
+    #[track_caller]
+    pub fn keys(&self) -> std::vec::IntoIter<&K> {
+        ordered(self.inner.keys().collect()).into_iter()
+    }
+    #[track_caller]
+    pub fn values(&self) -> std::vec::IntoIter<&V> {
+        ordered(self.inner.values().collect()).into_iter()
+    }
+    #[track_caller]
+    pub fn values_mut(&mut self) -> std::vec::IntoIter<&mut V> {
+        ordered(self.inner.values_mut().collect()).into_iter()
+    }
+    #[track_caller]
+    pub fn into_keys(self) -> std::vec::IntoIter<K> {
+        ordered(self.inner.into_keys().collect()).into_iter()
+    }
+    #[track_caller]
+    pub fn into_values(self) -> std::vec::IntoIter<V> {
+        ordered(self.inner.into_values().collect()).into_iter()
+    }
+    #[track_caller]
+    pub fn drain(&mut self) -> std::vec::IntoIter<(K, V)> {
+        ordered(self.inner.drain().collect()).into_iter()
+    }
+}
+
+impl<K: Eq + Hash, V, S> HashMap<K, V, S> {
+    /// visits the entries in the controlled order
+    #[track_caller]
+    pub fn retain<F: FnMut(&K, &mut V) -> bool>(&mut self, mut f: F) {
+        let old = std::mem::take(&mut self.inner);
+        for (k, mut v) in ordered(old.into_iter().collect::<Vec<_>>()) {
+            if f(&k, &mut v) {
+                self.inner.insert(k, v);
+            }
+        }
+    }
+}
+
+impl<K, V, S> Deref for HashMap<K, V, S> {
+    type Target = std::collections::HashMap<K, V, Fixed>;
+    fn deref(&self) -> &Self::Target {
+        &self.inner
+    }
+}
+impl<K, V, S> DerefMut for HashMap<K, V, S> {
+    fn deref_mut(&mut self) -> &mut Self::Target {
+        &mut self.inner
+    }
+}
+impl<K, V, S> Default for HashMap<K, V, S> {
+    fn default() -> Self {
+        HashMap { inner: Default::default(), _s: PhantomData }
+    }
+}
+impl<K: Clone, V: Clone, S> Clone for HashMap<K, V, S> {
+    fn clone(&self) -> Self {
+        HashMap { inner: self.inner.clone(), _s: PhantomData }
+    }
+}
+impl<K: fmt::Debug, V: fmt::Debug, S> fmt::Debug for HashMap<K, V, S> {
+    fn fmt(&self, f: &mut fmt::Formatter<'_>) -> fmt::Result {
+        f.debug_map().entries(self.iter()).finish()
+    }
+}
+impl<K: Eq + Hash, V: PartialEq, S> PartialEq for HashMap<K, V, S> {
+    fn eq(&self, other: &Self) -> bool {
+        self.inner == other.inner
+    }
+}
+impl<K: Eq + Hash, V: Eq, S> Eq for HashMap<K, V, S> {}
+
+impl<K: Eq + Hash, V, S> FromIterator<(K, V)> for HashMap<K, V, S> {
+    fn from_iter<I: IntoIterator<Item = (K, V)>>(iter: I) -> Self {
+        HashMap { inner: iter.into_iter().collect(), _s: PhantomData }
+    }
+}
+impl<K: Eq + Hash, V, S> Extend<(K, V)> for HashMap<K, V, S> {
+    fn extend<I: IntoIterator<Item = (K, V)>>(&mut self, iter: I) {
+        self.inner.extend(iter)
+    }
+}
+impl<K: Eq + Hash, V, S, const N: usize> From<[(K, V); N]> for HashMap<K, V, S> {
+    fn from(a: [(K, V); N]) -> Self {
+        a.into_iter().collect()
+    }
+}
+impl<K, Q: ?Sized, V, S> Index<&Q> for HashMap<K, V, S>
+where
+    K: Eq + Hash + Borrow<Q>,
+    Q: Eq + Hash,
+{
+    type Output = V;
+    fn index(&self, key: &Q) -> &V {
+        self.inner.get(key).expect("no entry found for key")
+    }
+}
+impl<K, V, S> IntoIterator for HashMap<K, V, S> {
+    type Item = (K, V);
+    type IntoIter = std::vec::IntoIter<(K, V)>;
+    #[track_caller]
+    fn into_iter(self) -> Self::IntoIter {
+        ordered(self.inner.into_iter().collect()).into_iter()
+    }
+}
+impl<'a, K, V, S> IntoIterator for &'a HashMap<K, V, S> {
+    type Item = (&'a K, &'a V);
+    type IntoIter = std::vec::IntoIter<(&'a K, &'a V)>;
+    #[track_caller]
+    fn into_iter(self) -> Self::IntoIter {
+        ordered(self.inner.iter().collect()).into_iter()
+    }
+}
+impl<'a, K, V, S> IntoIterator for &'a mut HashMap<K, V, S> {
+    type Item = (&'a K, &'a mut V);
+    type IntoIter = std::vec::IntoIter<(&'a K, &'a mut V)>;
+    #[track_caller]
+    fn into_iter(self) -> Self::IntoIter {
+        ordered(self.inner.iter_mut().collect()).into_iter()
+    }
+}
+impl<K: serde::Serialize + Eq + Hash, V: serde::Serialize, S> serde::Serialize for HashMap<K, V, S> {
+    fn serialize<Z: serde::Serializer>(&self, s: Z) -> Result<Z::Ok, Z::Error> {
+        s.collect_map(self.iter())
+    }
+}
+impl<'de, K: serde::Deserialize<'de> + Eq + Hash, V: serde::Deserialize<'de>, S> serde::Deserialize<'de> for HashMap<K, V, S> {
+    fn deserialize<D: serde::Deserializer<'de>>(d: D) -> Result<Self, D::Error> {
+        Ok(HashMap { inner: serde::Deserialize::deserialize(d)?, _s: PhantomData })
+    }
+}
+impl<K: schemars::JsonSchema, V: schemars::JsonSchema, S> schemars::JsonSchema for HashMap<K, V, S> {
+    fn schema_name() -> std::borrow::Cow<'static, str> {
+        <std::collections::HashMap<K, V> as schemars::JsonSchema>::schema_name()
+    }
+    fn json_schema(g: &mut schemars::SchemaGenerator) -> schemars::Schema {
+        <std::collections::HashMap<K, V> as schemars::JsonSchema>::json_schema(g)
+    }
+    fn inline_schema() -> bool {
+        <std::collections::HashMap<K, V> as schemars::JsonSchema>::inline_schema()
+    }
+}
+
+// ------------------------------------------------------------------ HashSet
+
+pub struct HashSet<T, S = RandomState> {
+    inner: std::collections::HashSet<T, Fixed>,
+    _s: PhantomData<S>,
+}
+
+impl<T> HashSet<T, RandomState> {
+    pub fn new() -> Self {
+        HashSet { inner: Default::default(), _s: PhantomData }
+    }
+    pub fn with_capacity(n: usize) -> Self {
+        HashSet { inner: std::collections::HashSet::with_capacity_and_hasher(n, Fixed::default()), _s: PhantomData }
+    }
+}
+
+impl<T, S> HashSet<T, S> {
+    pub fn len(&self) -> usize {
+        self.inner.len()
+    }
+    pub fn is_empty(&self) -> bool {
+        self.inner.is_empty()
+    }
+    #[track_caller]
+    pub fn iter(&self) -> std::vec::IntoIter<&T> {
+        ordered(self.inner.iter().collect()).into_iter()
+    }
+    #[track_caller]
+    pub fn drain(&mut self) -> std::vec::IntoIter<T> {
+        ordered(self.inner.drain().collect()).into_iter()
+    }
+}
+
+impl<T: Eq + Hash, S> HashSet<T, S> {
+    #[track_caller]
+    pub fn retain<F: FnMut(&T) -> bool>(&mut self, mut f: F) {
+        let old = std::mem::take(&mut self.inner);
+        for t in ordered(old.into_iter().collect::<Vec<_>>()) {
+            if f(&t) {
+                self.inner.insert(t);
+            }
+        }
+    }
+    #[track_caller]
+    pub fn difference<'a, S2>(&'a self, other: &'a HashSet<T, S2>) -> std::vec::IntoIter<&'a T> {
+        ordered(self.inner.iter().filter(|t| !other.inner.contains(*t)).collect()).into_iter()
+    }
+    #[track_caller]
+    pub fn intersection<'a, S2>(&'a self, other: &'a HashSet<T, S2>) -> std::vec::IntoIter<&'a T> {
+        ordered(self.inner.iter().filter(|t| other.inner.contains(*t)).collect()).into_iter()
+    }
+    #[track_caller]
+    pub fn union<'a, S2>(&'a self, other: &'a HashSet<T, S2>) -> std::vec::IntoIter<&'a T> {
+        let mut v: Vec<&T> = self.inner.iter().collect();
+        v.extend(other.inner.iter().filter(|t| !self.inner.contains(*t)));
+        ordered(v).into_iter()
+    }
+    pub fn is_subset<S2>(&self, other: &HashSet<T, S2>) -> bool {
+        self.inner.iter().all(|t| other.inner.contains(t))
+    }
+    pub fn is_superset<S2>(&self, other: &HashSet<T, S2>) -> bool {
+        other.is_subset(self)
+    }
+    pub fn is_disjoint<S2>(&self, other: &HashSet<T, S2>) -> bool {
+        self.inner.iter().all(|t| !other.inner.contains(t))
+    }
+}
+
+impl<T, S> Deref for HashSet<T, S> {
+    type Target = std::collections::HashSet<T, Fixed>;
+    fn deref(&self) -> &Self::Target {
+        &self.inner
+    }
+}
+impl<T, S> DerefMut for HashSet<T, S> {
+    fn deref_mut(&mut self) -> &mut Self::Target {
+        &mut self.inner
+    }
+}
+impl<T, S> Default for HashSet<T, S> {
+    fn default() -> Self {
+        HashSet { inner: Default::default(), _s: PhantomData }
+    }
+}
+impl<T: Clone, S> Clone for HashSet<T, S> {
+    fn clone(&self) -> Self {
+        HashSet { inner: self.inner.clone(), _s: PhantomData }
+    }
+}
+impl<T: fmt::Debug, S> fmt::Debug for HashSet<T, S> {
+    fn fmt(&self, f: &mut fmt::Formatter<'_>) -> fmt::Result {
+        f.debug_set().entries(self.iter()).finish()
+    }
+}
+impl<T: Eq + Hash, S> PartialEq for HashSet<T, S> {
+    fn eq(&self, other: &Self) -> bool {
+        self.inner == other.inner
+    }
+}
+impl<T: Eq + Hash, S> Eq for HashSet<T, S> {}
+impl<T: Eq + Hash, S> FromIterator<T> for HashSet<T, S> {
+    fn from_iter<I: IntoIterator<Item = T>>(iter: I) -> Self {
+        HashSet { inner: iter.into_iter().collect(), _s: PhantomData }
+    }
+}
+impl<T: Eq + Hash, S> Extend<T> for HashSet<T, S> {
+    fn extend<I: IntoIterator<Item = T>>(&mut self, iter: I) {
+        self.inner.extend(iter)
+    }
+}
+impl<'a, T: Eq + Hash + Copy + 'a, S> Extend<&'a T> for HashSet<T, S> {
+    fn extend<I: IntoIterator<Item = &'a T>>(&mut self, iter: I) {
+        self.inner.extend(iter)
+    }
+}
+impl<T: Eq + Hash, S, const N: usize> From<[T; N]> for HashSet<T, S> {
+    fn from(a: [T; N]) -> Self {
+        a.into_iter().collect()
+    }
+}
+impl<T, S> IntoIterator for HashSet<T, S> {
+    type Item = T;
+    type IntoIter = std::vec::IntoIter<T>;
+    #[track_caller]
+    fn into_iter(self) -> Self::IntoIter {
+        ordered(self.inner.into_iter().collect()).into_iter()
+    }
+}
+impl<'a, T, S> IntoIterator for &'a HashSet<T, S> {
+    type Item = &'a T;
+    type IntoIter = std::vec::IntoIter<&'a T>;
+    #[track_caller]
+    fn into_iter(self) -> Self::IntoIter {
+        ordered(self.inner.iter().collect()).into_iter()
+    }
+}
+impl<T: serde::Serialize + Eq + Hash, S> serde::Serialize for HashSet<T, S> {
+    fn serialize<Z: serde::Serializer>(&self, s: Z) -> Result<Z::Ok, Z::Error> {
+        s.collect_seq(self.iter())
+    }
+}
+impl<'de, T: serde::Deserialize<'de> + Eq + Hash, S> serde::Deserialize<'de> for HashSet<T, S> {
+    fn deserialize<D: serde::Deserializer<'de>>(d: D) -> Result<Self, D::Error> {
+        Ok(HashSet { inner: serde::Deserialize::deserialize(d)?, _s: PhantomData })
+    }
+}
+impl<T: schemars::JsonSchema, S> schemars::JsonSchema for HashSet<T, S> {
+    fn schema_name() -> std::borrow::Cow<'static, str> {
+        <std::collections::HashSet<T> as schemars::JsonSchema>::schema_name()
+    }
+    fn json_schema(g: &mut schemars::SchemaGenerator) -> schemars::Schema {
+        <std::collections::HashSet<T> as schemars::JsonSchema>::json_schema(g)
+    }
+    fn inline_schema() -> bool {
+        <std::collections::HashSet<T> as schemars::JsonSchema>::inline_schema()
+    }
+}
